@@ -29,7 +29,7 @@ def _timeouts(draw):
     return {str(t): draw(st.sampled_from([0.13, 0.27, 0.41])) for t in range(4) if draw(st.booleans())}
 
 
-P_MAIN = Profile(timeouts=_timeouts(), raises=0.2, dual=0.15, actor_ops=['disp', 'disp', 'disp', 'dispany', 'sleep', 'await', 'yield', 'redisp', 'redisp', 'burst'], maxdepth=[2, 2, 3], wild=0.3)
+P_MAIN = Profile(timeouts=_timeouts(), raises=0.2, raise_kinds=['VE', 'custom', 'KE', 'RT', 'chain', 'CE', 'CE', 'TO'], dual=0.15, actor_ops=['disp', 'disp', 'disp', 'dispany', 'sleep', 'await', 'yield', 'redisp', 'redisp', 'burst'], maxdepth=[2, 2, 3], wild=0.3)
 
 
 def budget(tier):
